@@ -354,6 +354,92 @@ theorem mask_extent_is_support_bbox (S0 S1 : Int) (m : Arr Bool) (oe : Extent) (
     · simpa using e3
     · simpa using e4
 
+/-! ## The call as the caller writes it: defaults, broadcasting, the mask guard (all generated) -/
+
+/-- **Defaults and broadcasting of `shape` / `prop_shape`** (generated from the two conditional assignments of `propagate_dft`):
+`shape=None` is the wavefront's shape, `prop_shape=None` is `shape`, one int means a square, a pair is taken as is. -/
+theorem shape_defaults (W0 W1 S0 S1 n a b : Int) :
+    Gen.dftShapeDefault W0 W1 .none = (W0, W1) ∧ Gen.dftShapeDefault W0 W1 (.scalar n) = (n, n) ∧
+    Gen.dftShapeDefault W0 W1 (.pair a b) = (a, b) ∧
+    Gen.dftPropShapeDefault S0 S1 .none = (S0, S1) ∧ Gen.dftPropShapeDefault S0 S1 (.scalar n) = (n, n) ∧
+    Gen.dftPropShapeDefault S0 S1 (.pair a b) = (a, b) := by
+  refine ⟨rfl, rfl, rfl, rfl, rfl, rfl⟩
+
+/-- **Without a mask the call is `propagateDft` at the resolved shapes** — so every theorem above (stated for explicit pairs) applies to
+the call with `None` / int / pair arguments; in particular `propagate_dft(w, du)` evaluates the whole `wavefront.shape * oversample` array. -/
+theorem call_no_mask (fs : List (TField K R)) (αr αc : R) (W0 W1 : Int) (shape propShape : Gen.ShapeArg) (os : Int) :
+    propagateDftCall fs αr αc W0 W1 shape propShape os none =
+      .ok (propagateDft fs αr αc (Gen.dftShapeDefault W0 W1 shape).1 (Gen.dftShapeDefault W0 W1 shape).2
+            (Gen.dftPropShapeDefault (Gen.dftShapeDefault W0 W1 shape).1 (Gen.dftShapeDefault W0 W1 shape).2 propShape).1
+            (Gen.dftPropShapeDefault (Gen.dftShapeDefault W0 W1 shape).1 (Gen.dftShapeDefault W0 W1 shape).2 propShape).2 os none)
+          ((Gen.dftShapeDefault W0 W1 shape).1 * os) ((Gen.dftShapeDefault W0 W1 shape).2 * os) := by
+  simp only [propagateDftCall, propagateDftResolved, propagateDft, noMaskOutExtent, Gen.dftOutExtentArgsNoMask, outExtent, Gen.dftShapeOut]
+
+/-- the all-default call: `propagate_dft(w, du, oversample=os)` -/
+theorem call_all_defaults (fs : List (TField K R)) (αr αc : R) (W0 W1 os : Int) :
+    propagateDftCall fs αr αc W0 W1 .none .none os none = .ok (propagateDft fs αr αc W0 W1 W0 W1 os none) (W0 * os) (W1 * os) := by
+  rw [call_no_mask]; rfl
+
+/-- the resolved body with a mask, by the value of the generated guard and of `boundary` -/
+theorem resolved_mask (fs : List (TField K R)) (αr αc : R) (S0 S1 P0 P1 : Int) (m : Arr Bool) :
+    (Gen.dftMaskMismatch m.s0 m.s1 S0 S1 = true → propagateDftResolved fs αr αc S0 S1 P0 P1 (some m) = .valueError) ∧
+    (Gen.dftMaskMismatch m.s0 m.s1 S0 S1 = false → boundary m = none → propagateDftResolved fs αr αc S0 S1 P0 P1 (some m) = .indexError) ∧
+    (Gen.dftMaskMismatch m.s0 m.s1 S0 S1 = false → ∀ b, boundary m = some b → propagateDftResolved fs αr αc S0 S1 P0 P1 (some m) =
+      .ok (fs.filterMap fun t => propagateField t αr αc (maskOutExtent m.s0 m.s1 S0 S1 b) P0 P1) S0 S1) := by
+  refine ⟨fun hg => ?_, fun hg hb => ?_, fun hg b hb => ?_⟩
+  · simp only [propagateDftResolved, hg, if_true]
+  · simp only [propagateDftResolved, hg, hb, Bool.false_eq_true, if_false]
+  · simp only [propagateDftResolved, hg, hb, Bool.false_eq_true, if_false]
+
+/-- **With a mask of the output shape the call is `propagateDft` on the mask's bounding box**; an all-zero mask is NumPy's IndexError. -/
+theorem call_mask_matching (fs : List (TField K R)) (αr αc : R) (W0 W1 : Int) (shape propShape : Gen.ShapeArg) (os : Int) (m : Arr Bool)
+    (h0 : m.s0 = (Gen.dftShapeDefault W0 W1 shape).1 * os) (h1 : m.s1 = (Gen.dftShapeDefault W0 W1 shape).2 * os) :
+    (boundary m = none → propagateDftCall fs αr αc W0 W1 shape propShape os (some m) = .indexError) ∧
+    (∀ b, boundary m = some b → propagateDftCall fs αr αc W0 W1 shape propShape os (some m) =
+      .ok (propagateDft fs αr αc (Gen.dftShapeDefault W0 W1 shape).1 (Gen.dftShapeDefault W0 W1 shape).2
+            (Gen.dftPropShapeDefault (Gen.dftShapeDefault W0 W1 shape).1 (Gen.dftShapeDefault W0 W1 shape).2 propShape).1
+            (Gen.dftPropShapeDefault (Gen.dftShapeDefault W0 W1 shape).1 (Gen.dftShapeDefault W0 W1 shape).2 propShape).2 os (some b))
+          ((Gen.dftShapeDefault W0 W1 shape).1 * os) ((Gen.dftShapeDefault W0 W1 shape).2 * os)) := by
+  have hg : Gen.dftMaskMismatch m.s0 m.s1 (Gen.dftShapeOut (Gen.dftShapeDefault W0 W1 shape).1 (Gen.dftShapeDefault W0 W1 shape).2 os).1
+      (Gen.dftShapeOut (Gen.dftShapeDefault W0 W1 shape).1 (Gen.dftShapeDefault W0 W1 shape).2 os).2 = false := by
+    simp [Gen.dftMaskMismatch, Gen.dftShapeOut, h0, h1]
+  refine ⟨fun hb => ?_, fun b hb => ?_⟩
+  · unfold propagateDftCall; exact (resolved_mask fs αr αc _ _ _ _ m).2.1 hg hb
+  · unfold propagateDftCall; rw [(resolved_mask fs αr αc _ _ _ _ m).2.2 hg b hb]
+    simp only [propagateDft, maskOutExtent, Gen.dftOutExtentArgsMask, outExtent, Gen.dftShapeOut, h0, h1]
+
+/-- **The mask-shape guard as written refuses only when BOTH dimensions differ** (`np.all(mask.shape != shape_out)`): the call ends in
+ValueError iff neither dimension of the mask matches the output array. A mask that matches in one dimension only is accepted and its
+bounding box is centred on the MASK's own shape (`maskOutExtent` takes `m.s0, m.s1`) — recorded as known finding
+`KF-C02-mask-shape-guard`; the theorems about placement assume a mask of the output shape (`call_mask_matching`). -/
+theorem call_mask_refused_iff (fs : List (TField K R)) (αr αc : R) (W0 W1 : Int) (shape propShape : Gen.ShapeArg) (os : Int) (m : Arr Bool) :
+    propagateDftCall fs αr αc W0 W1 shape propShape os (some m) = .valueError ↔
+      m.s0 ≠ (Gen.dftShapeDefault W0 W1 shape).1 * os ∧ m.s1 ≠ (Gen.dftShapeDefault W0 W1 shape).2 * os := by
+  unfold propagateDftCall
+  obtain ⟨ht, hn, hs⟩ := resolved_mask fs αr αc
+    (Gen.dftShapeOut (Gen.dftShapeDefault W0 W1 shape).1 (Gen.dftShapeDefault W0 W1 shape).2 os).1
+    (Gen.dftShapeOut (Gen.dftShapeDefault W0 W1 shape).1 (Gen.dftShapeDefault W0 W1 shape).2 os).2
+    (Gen.dftPropShapeOut (Gen.dftPropShapeDefault (Gen.dftShapeDefault W0 W1 shape).1 (Gen.dftShapeDefault W0 W1 shape).2 propShape).1
+      (Gen.dftPropShapeDefault (Gen.dftShapeDefault W0 W1 shape).1 (Gen.dftShapeDefault W0 W1 shape).2 propShape).2 os).1
+    (Gen.dftPropShapeOut (Gen.dftPropShapeDefault (Gen.dftShapeDefault W0 W1 shape).1 (Gen.dftShapeDefault W0 W1 shape).2 propShape).1
+      (Gen.dftPropShapeDefault (Gen.dftShapeDefault W0 W1 shape).1 (Gen.dftShapeDefault W0 W1 shape).2 propShape).2 os).2 m
+  cases hg : Gen.dftMaskMismatch m.s0 m.s1 (Gen.dftShapeOut (Gen.dftShapeDefault W0 W1 shape).1 (Gen.dftShapeDefault W0 W1 shape).2 os).1
+      (Gen.dftShapeOut (Gen.dftShapeDefault W0 W1 shape).1 (Gen.dftShapeDefault W0 W1 shape).2 os).2 with
+  | true =>
+    rw [ht hg]
+    simp only [true_iff]
+    simpa [Gen.dftMaskMismatch, Gen.dftShapeOut] using hg
+  | false =>
+    have hne : ¬ (m.s0 ≠ (Gen.dftShapeDefault W0 W1 shape).1 * os ∧ m.s1 ≠ (Gen.dftShapeDefault W0 W1 shape).2 * os) := by
+      simpa [Gen.dftMaskMismatch, Gen.dftShapeOut] using hg
+    simp only [hne, iff_false]
+    cases hb : boundary m with
+    | none => rw [hn hg hb]; exact fun h => by cases h
+    | some b => rw [hs hg b hb]; exact fun h => by cases h
+
+/-- the known finding, concretely: an 8x10 mask is accepted for an 8x8 output array -/
+theorem kf_mask_shape_guard : Gen.dftMaskMismatch 8 10 8 8 = false ∧ ((8 : Int), (10 : Int)) ≠ (8, 8) := by decide
+
 /-! ## Non-vacuity: the hypotheses are satisfiable by concrete, non-trivial instances -/
 section
 local instance : RealLike Int := ⟨id, 6, id, fun x => x.natAbs⟩
